@@ -168,3 +168,9 @@ Example C13_multi_nonvacuous :
   gen_cmv_correct (gen_cmv_children [xint 0; xint (-1)] [xint 1; xint 1]) [CNum (xint 5); CNum (xint (-7))] = Some [CNum (xint 1); CNum (xint (-1))] /\
   gen_cmv_correct (gen_cmv_children [xint 0; xint (-1)] [xint 1; xint 1]) [CNum (xint 5)] = None.
 Proof. vm_compute. repeat split. Qed.
+
+(* state shared between objects (regenerated scan of the whole package: memoising decorators, mutable class attributes of non-pydantic classes, module-level
+   containers mutated by functions): there is none - variables do not share tables *)
+Theorem C13_no_shared_mutable_state : gen_no_shared_mutable_state = true.
+Proof. reflexivity. Qed.
+Print Assumptions C13_no_shared_mutable_state.
